@@ -645,6 +645,10 @@ class Executor(Evaluator):
             raise Unsupported(f"arity mismatch calling {con.qualname}: {len(pnames)} vs {len(args)}")
         cenv = dict(zip(pnames, args))
         callee = con.qualname.split("::")[-1]
+        cg = getattr(self.cur_contract, "extra", {}).get("call_ghosts", {}) if self.cur_contract else {}
+        if node is not None and isinstance(node.func, ast.Name) and node.func.id in cg and self.module is self.fi.module:
+            for gname, gexpr in cg[node.func.id].items():
+                cenv[gname] = self.eval_spec(gexpr, st, {})
         # shape symbols of the callee are bound from the actual arrays
         genv = self.bind_shape_syms(con, cenv)
         pre = st.snapshot()
@@ -826,6 +830,30 @@ class Executor(Evaluator):
             v = self.eval(a[0], st)
             p = [x for x in st.pre_stack if not isinstance(x, tuple)][-1]
             return st.heap[v.obj.id] == p.heap[v.obj.id] if st.heap[v.obj.id] is not p.heap[v.obj.id] else True
+        if name in ("ufun_bool", "ufun_int", "ufun_arr"):
+            fname = self.eval(a[0], st)
+            rest = a[1:]
+            shape = None
+            if name == "ufun_arr":
+                shape = [as_int(self.eval(rest[0], st))]
+                rest = rest[1:]
+            vals = [self.eval(x, st) for x in rest]
+            zargs = []
+            for v in vals:
+                if isinstance(v, (Arr, AExpr, SpecArr)):
+                    zargs.append(self.z3_array(st, v))
+                elif is_boolv(v):
+                    zargs.append(zbool(v))
+                else:
+                    zargs.append(zint(v))
+            rng = BOOL if name == "ufun_bool" else (INT if name == "ufun_int" else z3.ArraySort(INT, INT))
+            key = (fname, tuple(str(z.sort()) for z in zargs), str(rng))
+            F = self.ufuns.get(key)
+            if F is None:
+                F = z3.Function(fname, *[z.sort() for z in zargs], rng)
+                self.ufuns[key] = F
+            app = F(*zargs)
+            return SpecArr(app, shape) if name == "ufun_arr" else app
         if name == "rowidx":
             v = self.eval(a[0], st)
             if isinstance(v, Arr) and v.axes and v.axes[0][0] == "fix":
